@@ -584,16 +584,11 @@ func listPageInner(ctx context.Context, tx *bolt.Tx, prefix string, after string
 	var keys []string
 
 	prefixBytes := []byte(prefix)
-	seekPrefix := []byte(filepath.Join(prefix, after))
-	if after == "" {
-		seekPrefix = prefixBytes
-	} else if !bytes.HasPrefix(seekPrefix, prefixBytes) {
-		// filepath.Join has the very unfortunate behavior of trimming the
-		// trailing slash when after=".". When e.g., prefix=foo/, this gives
-		// us seekPrefix=foo, which fails the initial HasPrefix check,
-		// skipping all results.
-		seekPrefix = prefixBytes
-	}
+	// Seek to prefix+after (plain concatenation): every key that can yield an
+	// entry greater than after sorts at or behind it, and it always lies
+	// inside the prefix. A path join would clean the value ("." "../x"
+	// "a/../b") and could leave the prefix or land behind qualifying keys.
+	seekPrefix := []byte(prefix + after)
 
 	// Assume bucket exists and has keys
 	c := tx.Bucket(dataBucketName).Cursor()
